@@ -646,7 +646,7 @@ Qed.
 Lemma run_cb_e w c : EC w -> EC (run_cb w c).
 Proof.
   intros H. unfold run_cb. destruct (wcrash w); auto. destruct c.
-  - apply resume_e; auto.
+  - destruct (_ <? _)%nat; [apply resume_e; auto|apply crashw_e; auto].
   - exact H.
   - destruct (res_trig_get _ _) as [[k0 r0]|] eqn:E; auto with edb; apply upd_node_e; exact H.
   - destruct (res_trig_put _ _) as [[k0 r0]|] eqn:E; auto with edb; apply upd_node_e; exact H.
